@@ -2063,6 +2063,12 @@ Queue<ItemType>::SwapContentsAux(Queue<ItemType> & largeThat)  // note:  can't b
    const uint32 ni = GetNumItems();
    MASSERT((ni <= ARRAYITEMS(largeThat._smallQueue)), "Queue::SwapContentsAux():  ni is too large");  // only here to reassure Coverity and myself
    for (uint32 i=0; i<ni; i++) largeThat._smallQueue[i] = QQ_PlunderItem((*this)[i]);
+   if (IsPerItemClearNecessary())
+   {
+      // don't leave stale items behind in our own _smallQueue; a later shrink back into it would expose them
+      const ItemType & defaultItem = GetDefaultItem();
+      for (uint32 i=0; i<ni; i++) (*this)[i] = defaultItem;
+   }
 
    // Now adopt his dynamic buffer
    _queue     = largeThat._queue;
